@@ -6,7 +6,7 @@ From Coq Require Import List ZArith Lia Bool Arith.
 Import ListNotations.
 Require Import C02.Sums C02.Batch C02.Tensor C02.Dense C02.Op C02.Model C02.Spec.
 Require Import C02.ProofsDense C02.ProofsBase C02.ProofsExpand C02.ProofsCtor C02.ProofsMT C02.ProofsMatmul C02.ProofsRaw C02.ProofsAdd
-               C02.ProofsMul C02.ProofsSub C02.ProofsMulM C02.ProofsBatch C02.ProofsAddDiag C02.ProofsProgram.
+               C02.ProofsMul C02.ProofsSub C02.ProofsMulM C02.ProofsBatch C02.ProofsAddDiag C02.ProofsPermute C02.ProofsSumBatch C02.ProofsProgram.
 
 (* the Gallina broadcast function used everywhere in the model and the specification is torch's documented rule *)
 Theorem C02_broadcast_shapes_is_torch_rule a b r :
@@ -88,6 +88,20 @@ Theorem C02_unsqueeze_partial e p r :
   wf e -> (p <= length (batch e))%nat -> alg_unsqueeze e p = Ok r -> denote r == dunsqueeze (denote e) p.
 Proof. exact (alg_unsqueeze_correct e p r). Qed.
 
+(* _permute_batch (permute / transpose of batch dimensions), same classes; [zfree]: ZeroLinearOperator keeps its sizes
+   (finding C02-zero-permute-noop) *)
+Theorem C02_permute_partial e perm r :
+  wf e -> zfree e = true -> is_permb perm (length (batch e)) = true -> alg_permute e perm = Ok r ->
+  denote r == dpermute (denote e) perm.
+Proof. exact (alg_permute_correct e perm r). Qed.
+
+(* _sum_batch (sum over a batch dimension) for the classes that override it: Dense, Diag, ConstantDiag, Identity (->
+   ConstantDiag), Zero, Triangular, the Sum family mapped over its summands (the base class builds a SumBatchLinearOperator:
+   not modelled; KroneckerProductDiag raises: finding C02-krondiag-sum-batch) *)
+Theorem C02_sum_batch_partial e p r :
+  wf e -> (p < length (batch e))%nat -> alg_sum_batch e p = Ok r -> denote r == dsumdim (denote e) p.
+Proof. exact (alg_sum_batch_correct e p r). Qed.
+
 (* add_jitter / add_diagonal with a 0-d diagonal, every override of the model (base -> AddedDiag with a ConstantDiag, Diag
    family, Triangular, the three added-diagonal classes, Kronecker -> KroneckerProductAddedDiag, LowRankRoot ->
    LowRankRootAddedDiag): the object denotes A + c I.  ZeroLinearOperator.add_diagonal is a recorded defect (zpath). *)
@@ -97,8 +111,9 @@ Theorem C02_add_diagonal0_partial e d r :
 Proof. exact (alg_add_diagonal_correct0 e d r). Qed.
 
 (* MULTI-STEP PROGRAMS (the unbounded quantifier of the property), by induction on the program: for every program built from
-   the covered operations (see ProofsProgram.covered: leaves of ANY class, +, -, elementwise *, @, * python number in either order, expand, unsqueeze,
-   .mT, add_jitter, add_diagonal with a 0-d diagonal) in which no step
+   the covered operations (see ProofsProgram.covered: leaves of ANY class, +, -, elementwise *, @, * and / by a python number or 0-d tensor in either
+   order, expand, unsqueeze, permute, transpose of batch dimensions, sum over a batch dimension, .mT, add_jitter, add_diagonal
+   with a 0-d diagonal) in which no step
    hits a recorded defect cell, if the library-side evaluation (eval_alg: the objects the dispatching methods build, step
    after step) returns an object r and the same program is defined on dense tensors (eval_dense: torch semantics), then r
    denotes exactly the dense value.  Operations outside [covered] are listed in design_notes/C02.md. *)
